@@ -40,6 +40,19 @@ type ChordSpec struct {
 	Long   bool   `json:"long,omitempty"` // written by long name
 	Bass   *IV    `json:"bass,omitempty"`
 	Suffix bool   `json:"suffix,omitempty"` // interval written in suffix form (3b) instead of prefix (b3)
+	Short  bool   `json:"short,omitempty"`  // a diminished 1/4/5/8/11/12/15 written with one flat (b5, b12): there is no minor form it could mean
+}
+
+// spellIV writes an interval of this chord the way the chord spells its intervals.
+func (c ChordSpec) spellIV(iv IV) string {
+	s := ivText(iv, c.Suffix)
+	if c.Short && theory.Qual(iv.Qual) == theory.Dim {
+		switch (iv.Num - 1) % 7 {
+		case 0, 3, 4:
+			s = strings.Replace(s, "bb", "b", 1)
+		}
+	}
+	return s
 }
 
 type Inst struct {
@@ -169,9 +182,9 @@ func (d Inst) yaml() string {
 	}
 	sb.WriteString("]\n")
 	if c := d.Chord; c != nil {
-		sb.WriteString(fmt.Sprintf("  chord: {degree: %s, name: %s", yq(d.padNum(ivText(c.Deg, c.Suffix))), yq(c.name())))
+		sb.WriteString(fmt.Sprintf("  chord: {degree: %s, name: %s", yq(d.padNum(c.spellIV(c.Deg))), yq(c.name())))
 		if c.Bass != nil {
-			sb.WriteString(fmt.Sprintf(", base: %s", yq(d.padNum(ivText(*c.Bass, c.Suffix)))))
+			sb.WriteString(fmt.Sprintf(", base: %s", yq(d.padNum(c.spellIV(*c.Bass)))))
 		}
 		sb.WriteString("}\n")
 	}
@@ -251,9 +264,9 @@ func (d Inst) yamlPlain() string {
 	}
 	if c := d.Chord; c != nil {
 		item("chord:\n")
-		sb.WriteString(fmt.Sprintf("    degree: %s\n    name: %s\n", d.ypPad(ivText(c.Deg, c.Suffix)), yq(c.name())))
+		sb.WriteString(fmt.Sprintf("    degree: %s\n    name: %s\n", d.ypPad(c.spellIV(c.Deg)), yq(c.name())))
 		if c.Bass != nil {
-			sb.WriteString(fmt.Sprintf("    base: %s\n", d.ypPad(ivText(*c.Bass, c.Suffix))))
+			sb.WriteString(fmt.Sprintf("    base: %s\n", d.ypPad(c.spellIV(*c.Bass))))
 		}
 	}
 	if len(d.Values) == 0 {
@@ -451,6 +464,7 @@ func genInst(o DocOpts) *rapid.Generator[Inst] {
 		if !coin(t, "rest", o.RestPct) {
 			c := &ChordSpec{Deg: genInterval(o.MaxIvNum).Draw(t, "deg"), Sym: rapid.SampledFrom(theory.Displays).Draw(t, "sym"), Long: coin(t, "long", 30)}
 			c.Bass = opt(t, "bass", 40, genInterval(o.MaxIvNum))
+			c.Short = coin(t, "short-diminished", 30)
 			if o.Suffix {
 				c.Suffix = coin(t, "suffix", 25)
 			}
